@@ -1,6 +1,7 @@
-"""Translator unit `metabuild`: the builders of the emulator's system - src/emu/system.c create_thread, create_proc, create_loom and
-the per-stream body of create_system's loop (emitted as `stream_body`); src/emu/loom.c loom_find_proc, loom_add_proc,
-loom_load_metadata; src/emu/proc.c proc_find_thread, proc_add_thread, proc_load_metadata.
+"""Translator unit `metabuild`: the builders of the emulator's system - src/emu/system.c find_loom, create_thread, create_proc,
+create_loom, system_get_lpt, the per-stream body of create_system's loop (emitted as `stream_body`) and the `for` statement itself
+(`create_system_loop`, checked on the AST); src/emu/loom.c loom_init_begin, loom_find_proc, loom_add_proc, loom_load_metadata;
+src/emu/proc.c proc_init_begin, proc_find_thread, proc_add_thread, proc_load_metadata; src/emu/thread.c thread_init_begin.
 
 Emits coq/Gen/MetaBuild_gen.v over the hand-written prelude coq/Emu/MetaBuildPre.v.  The renderer is the one of unit markread
 (class R, imported and SUBCLASSED, not edited; _stagec.py is not used; unit meta is not touched).  Additional forms:
@@ -15,9 +16,15 @@ Emits coq/Gen/MetaBuild_gen.v over the hand-written prelude coq/Emu/MetaBuildPre
   struct lpt *lpt = &sys->lpt[i++];         bind (lpt_next sys) (fun lpt => ..)
   stream_data_set(s, lpt);                  bind_ (stream_data_set s lpt) ..
   continue;  (loop body of create_system)   ret 0    (the body is emitted as a function of one stream)
+  for (struct loom *x = sys->looms; x; x = x->next) { if (c) return x; }     bind (dl_find_looms sys (fun x => ret c)) (fun r => ite (negb (is_null r)) (ret r) ..)
+  for (struct stream *s = trace->streams; s; s = s->next) { body } return 0;  bind_ (for_streams trace (fun s => stream_body sys s)) (ret 0)
+  memset(x, 0, sizeof(struct T));           bind_ (memset_T x) ..
+  if (snprintf(x->f, N, "%s" | "name.%d", v) >= N) { refusal }   bind (snprintf_s_T_f | snprintf_d_T_f ..) (fun len => ite (len >=? N) (fail ..) ..)
+  set_hostname(x->hostname, x->name); cpu_init_begin(&x->vcpu, ..); cpu_set_loom(&x->vcpu, x);   bind_ (..) ..
+  a->stream != b  (struct stream *)         negb (stream_eqb ..)
 Primitives (prelude): the metadata gates and loaders unit meta translates (loom_name, proc_stream_get_pid, thread_stream_get_tid,
 is_thread_stream, load_cpus, load_appid, load_rank, thread_load_metadata: their meaning on the stream's claims is
-C15_stream_claims_from_source), find_loom, loom_init_begin, proc_init_begin, thread_init_begin, the accessors proc_get_pid /
+C15_stream_claims_from_source), the accessors proc_get_pid /
 proc_set_loom / thread_get_tid / thread_set_proc, the uthash / utlist macros, malloc.
 `G` (translate/gen.py) is injected by the plug-in loader.
 """
@@ -31,23 +38,31 @@ _spec.loader.exec_module(MRK)
 EV = MRK.EV
 V = MRK.V
 
-MRK.STATEFUL = {"system", "lpt", "loom", "proc"}
-MRK.PURE = {"loom_name", "proc_stream_get_pid", "thread_stream_get_tid", "stream_metadata"}
+MRK.STATEFUL = {"system", "lpt", "loom", "proc", "thread"}
+MRK.PURE = {"loom_name", "proc_stream_get_pid", "thread_stream_get_tid", "stream_metadata", "strcmp", "strchr"}
 MRK.FUNCS = {"find_loom": "ptr", "loom_init_begin": "int", "loom_load_metadata": "int", "loom_find_proc": "ptr", "proc_init_begin": "int",
              "loom_add_proc": "int", "proc_load_metadata": "int", "proc_find_thread": "ptr", "thread_init_begin": "int",
              "thread_load_metadata": "int", "proc_add_thread": "int", "is_thread_stream": "int", "proc_get_pid": "int", "thread_get_tid": "int", "load_appid": "int", "load_rank": "int", "load_cpus": "int",
-             "create_thread": "ptr", "create_proc": "ptr", "create_loom": "ptr"}
+             "create_thread": "ptr", "create_proc": "ptr", "create_loom": "ptr", "stream_data_get": "ptr", "system_get_lpt": "ptr"}
 MRK.RPTYPES = {"char *": "ptr_str", "struct system *": "ptr_sys", "struct stream *": "ptr_stream", "struct loom *": "ptr_loom",
                "struct proc *": "ptr_proc", "struct thread *": "ptr_thread", "struct lpt *": "ptr_lpt", "JSON_Object *": "ptr_jobj"}
-OWN = ["create_thread", "create_proc", "create_loom"]
+OWN = ["find_loom", "create_thread", "create_proc", "create_loom"]
 VOIDFUNCS = {"proc_set_loom", "thread_set_proc"}
-OTHER = [("src/emu/loom.c", ["loom_find_proc", "loom_add_proc", "loom_load_metadata"]),
-         ("src/emu/proc.c", ["proc_find_thread", "proc_add_thread", "proc_load_metadata"])]
+OTHER = [("src/emu/loom.c", ["loom_init_begin", "loom_find_proc", "loom_add_proc", "loom_load_metadata"]),
+         ("src/emu/proc.c", ["proc_init_begin", "proc_find_thread", "proc_add_thread", "proc_load_metadata"]),
+         ("src/emu/thread.c", ["thread_init_begin"])]
 
 
 class B(MRK.R):
+    def cond(self, n, env):
+        c = self.strip(n)
+        if c.get("kind") == "BinaryOperator" and c.get("opcode") in ("!=", "==") and all(self.norm(self.qt(x)) == "struct stream *" for x in c["inner"]):
+            t = "(stream_eqb %s %s)" % (self.expr(c["inner"][0], env), self.expr(c["inner"][1], env))
+            return "(negb %s)" % t if c["opcode"] == "!=" else t
+        return MRK.R.cond(self, n, env)
+
     def ret_minus1(self, r):
-        if getattr(self, "rkind", None) == "ptr" and self.is_nullc(r):
+        if getattr(self, "rkind", None) == "ptr" and getattr(self, "null_refusal", True) and self.is_nullc(r):
             return True
         return MRK.R.ret_minus1(self, r)
 
@@ -101,7 +116,9 @@ class B(MRK.R):
                 v = s["inner"][0]
                 inits = [c for c in v.get("inner", []) if c.get("kind") != "FullComment"]
                 a = self.strip(inits[0]) if inits else {}
-                ok = a.get("kind") == "UnaryOperator" and a.get("opcode") == "&"
+                if not (a.get("kind") == "UnaryOperator" and a.get("opcode") == "&"):
+                    return MRK.R.stmts(self, ss, env)
+                ok = True
                 sub = self.strip(a["inner"][0]) if ok else {}
                 ok = ok and sub.get("kind") == "ArraySubscriptExpr"
                 if ok:
@@ -135,11 +152,103 @@ class B(MRK.R):
                     r = "r_%d" % self.fresh
                     return self.with_errno(list(call["inner"][1:]), env, lambda e: "bind %s (fun %s =>\nite (negb (is_null %s))\n(fail %s)\n(%s))" % (
                         self.mono_call(call, e), r, r, self.terminal_fail(s["inner"][1]), self.stmts(rest, env)))
+            if k == "CallExpr" and self.callee(s) in ("set_hostname", "cpu_init_begin", "cpu_set_loom"):
+                a = [self.strip(x) for x in s["inner"][1:]]
+                if self.callee(s) == "set_hostname":
+                    k0 = self.stateful_read(a[0]) if a[0].get("kind") == "MemberExpr" else None
+                    k1 = self.stateful_read(a[1]) if a[1].get("kind") == "MemberExpr" else None
+                    if not (k0 and k1 and k0[2] == k1[2] and k0[1] == "hostname" and k1[1] == "name"):
+                        self.bad(s, "set_hostname must be set_hostname(x->hostname, x->name)")
+                    return "bind_ (set_hostname_%s %s)\n(%s)" % (k0[0], env[k0[2]]["g"], self.stmts(rest, env))
+                u = a[0]
+                mem = self.strip(u["inner"][0]) if u.get("kind") == "UnaryOperator" and u.get("opcode") == "&" else {}
+                kk = self.stateful_read(mem) if mem.get("kind") == "MemberExpr" else None
+                if not (kk and kk[1] == "vcpu"):
+                    self.bad(s, "%s must act on &x->vcpu" % self.callee(s))
+                return "bind_ (%s_vcpu %s %s)\n(%s)" % (self.callee(s), env[kk[2]]["g"], " ".join(self.expr(x, env) for x in a[1:]), self.stmts(rest, env))
+            if k == "CallExpr" and self.callee(s) == "memset":
+                a = s["inner"][1:]
+                x = self.strip(a[0])
+                while x.get("kind") in ("ImplicitCastExpr", "CStyleCastExpr"):
+                    x = self.strip(x["inner"][0])
+                z = self.strip(a[1])
+                sz = self.strip(a[2])
+                nm = x.get("referencedDecl", {}).get("name")
+                m = re.match(r"^struct (\w+) \*$", self.norm(env.get(nm, {}).get("cty", ""))) if nm in env else None
+                ok = m and z.get("kind") == "IntegerLiteral" and z.get("value") == "0" and sz.get("kind") == "UnaryExprOrTypeTraitExpr" \
+                    and sz.get("name") == "sizeof" and self.norm(sz.get("argType", {}).get("qualType", "")) == "struct %s" % m.group(1)
+                if not ok:
+                    self.bad(s, "memset must be `memset(x, 0, sizeof(struct T))` with x a struct T * parameter")
+                return "bind_ (memset_%s %s)\n(%s)" % (m.group(1), env[nm]["g"], self.stmts(rest, env))
+            if k == "IfStmt" and len(s["inner"]) == 2:
+                c0 = self.strip(s["inner"][0])
+                call = self.strip(c0["inner"][0]) if c0.get("kind") == "BinaryOperator" and c0.get("opcode") == ">=" else {}
+                if call.get("kind") == "CallExpr" and self.callee(call) == "snprintf" and self.terminal_fail(s["inner"][1]) is not None:
+                    a = call["inner"][1:]
+                    d = self.strip(a[0]) if a else {}
+                    key = self.stateful_read(d) if d.get("kind") == "MemberExpr" else None
+                    fmt = self.strip(a[2]) if len(a) == 4 else {}
+                    fm = re.match(r'^"([a-z]+\.)%d"$', fmt.get("value", "")) if fmt.get("kind") == "StringLiteral" else None
+                    if key is not None and fmt.get("kind") == "StringLiteral" and fmt.get("value") == '"%s"':
+                        self.fresh += 1
+                        g = "len_%d" % self.fresh
+                        return "bind (snprintf_s_%s_%s %s %s %s) (fun %s =>\nite (Z.geb %s %s)\n(fail %s)\n(%s))" % (
+                            key[0], key[1], env[key[2]]["g"], self.expr(a[1], env), self.expr(a[3], env), g, g, self.expr(c0["inner"][1], env),
+                            self.terminal_fail(s["inner"][1]), self.stmts(rest, env))
+                    if key is None or not fm:
+                        self.bad(s, "snprintf in a condition must be `snprintf(x->field, N, \"name.%d\", v) >= N`")
+                    self.fresh += 1
+                    g = "len_%d" % self.fresh
+                    pre = "; ".join(str(b) for b in fm.group(1).encode())
+                    return "bind (snprintf_d_%s_%s %s %s [%s] %s) (fun %s =>\nite (Z.geb %s %s)\n(fail %s)\n(%s))" % (
+                        key[0], key[1], env[key[2]]["g"], self.expr(a[1], env), pre, self.expr(a[3], env), g, g, self.expr(c0["inner"][1], env),
+                        self.terminal_fail(s["inner"][1]), self.stmts(rest, env))
+            if k == "ForStmt":
+                t = self.loom_walk(s, rest, env)
+                if t is not None:
+                    return t
             if k == "CallExpr" and self.callee(s) in VOIDFUNCS:
                 return "bind_ (%s %s)\n(%s)" % (self.callee(s), " ".join(self.expr(self.strip(a), env) for a in s["inner"][1:]), self.stmts(rest, env))
             if k == "CallExpr" and self.callee(s) == "stream_data_set":
                 return "bind_ (stream_data_set %s)\n(%s)" % (" ".join(self.expr(self.strip(a), env) for a in s["inner"][1:]), self.stmts(rest, env))
         return MRK.R.stmts(self, ss, env)
+
+
+def _loom_walk(self, s, rest, env):
+    """for (struct loom *x = sys->looms; x; x = x->next) { if (c) return x; }  ->  dl_find_looms sys (fun x => c)"""
+    init, _, cond, inc, body = s["inner"]
+    v = init["inner"][0] if isinstance(init, dict) and init.get("kind") == "DeclStmt" and len(init["inner"]) == 1 else {}
+    if v.get("kind") != "VarDecl" or self.norm(self.qt(v)) != "struct loom *":
+        return None
+    vin = [x for x in v.get("inner", []) if x.get("kind") != "FullComment"]
+    head = self.stateful_read(self.strip(vin[0])) if vin and self.strip(vin[0]).get("kind") == "MemberExpr" else None
+    c = self.strip(cond) if isinstance(cond, dict) else {}
+    i0 = inc if isinstance(inc, dict) else {}
+    nxt = self.strip(i0["inner"][1]) if i0.get("kind") == "BinaryOperator" and i0.get("opcode") == "=" else {}
+    ok = head is not None and head[0] == "system" and head[1] == "looms" \
+        and c.get("kind") == "DeclRefExpr" and c["referencedDecl"]["name"] == v["name"] \
+        and i0.get("kind") == "BinaryOperator" and self.strip(i0["inner"][0]).get("referencedDecl", {}).get("name") == v["name"] \
+        and nxt.get("kind") == "MemberExpr" and nxt.get("name") == "next" and self.strip(nxt["inner"][0]).get("referencedDecl", {}).get("name") == v["name"]
+    fl = self.flat([body])
+    ok = ok and len(fl) == 1 and fl[0].get("kind") == "IfStmt" and len(fl[0]["inner"]) == 2
+    if ok:
+        th = self.flat([fl[0]["inner"][1]])
+        ok = len(th) == 1 and th[0].get("kind") == "ReturnStmt" and th[0].get("inner") \
+            and self.strip(th[0]["inner"][0]).get("referencedDecl", {}).get("name") == v["name"]
+    if not ok:
+        self.bad(s, "a loop over the looms must be `for (struct loom *x = sys->looms; x; x = x->next) { if (c) return x; }`")
+    g = self.gname(v["name"])
+    envb = dict(env)
+    envb[v["name"]] = {"kind": "var", "g": g, "cty": "struct loom *"}
+    cnd = fl[0]["inner"][0]
+    bt = self.with_errno([cnd], envb, lambda e: "ret %s" % self.cond(cnd, e))
+    self.fresh += 1
+    r = "r_%d" % self.fresh
+    return "bind (dl_find_looms %s (fun %s =>\n%s)) (fun %s =>\nite (negb (is_null %s))\n(ret %s)\n(%s))" % (
+        env[head[2]]["g"], g, bt, r, r, r, self.stmts(rest, env))
+
+
+B.loom_walk = _loom_walk
 
 
 def no_continue(n):
@@ -165,6 +274,7 @@ def gen(work):
     tu = '#include "%s"\n' % path
     incs = G.incs(inc) + [os.path.dirname(path)]
     defs = []
+    ctext = ""
     for (orel, fns) in OTHER:
         opath = os.path.join(G.REPO, orel)
         if not os.path.exists(opath):
@@ -175,11 +285,20 @@ def gen(work):
             t = B(cg, orel, fn, None)
             t.last_file = opath
             defs.append(t.function_r(d, MRK.FUNCS[fn]))
+            if t.consts:
+                vals = cg.probe_consts(otu, incs, {"c_" + n: n for n in sorted(t.consts)}, work)
+                ctext += "".join("Definition %s : Z := (%s).\n" % (k, vals[k]) for k in sorted(vals))
     for fn in OWN:
         d = cg.clang_ast(tu, incs, fn, work)
         t = B(cg, rel, fn, None)
         t.last_file = path
         defs.append(t.function_r(d, MRK.FUNCS[fn]))
+    # system_get_lpt: NULL is a result here, not a refusal
+    d = cg.clang_ast(tu, incs, "system_get_lpt", work)
+    t = B(cg, rel, "system_get_lpt", None)
+    t.last_file = path
+    t.null_refusal = False
+    defs.append(t.function_r(d, "ptr"))
     # the body of the loop of create_system as a function of one stream
     d = cg.clang_ast(tu, incs, "create_system", work)
     t = B(cg, rel, "create_system", None)
@@ -198,8 +317,30 @@ def gen(work):
                              {"kind": "CompoundStmt", "inner": [no_continue(lbody), {"kind": "ReturnStmt", "inner": [{"kind": "IntegerLiteral", "value": "0", "type": {"qualType": "int"}}]}]}]}
     t.fn = "stream_body"
     defs.append(t.function_r(fake, "int"))
+    # the for statement itself: exactly the walk over trace->streams, nothing after it but `return 0`
+    vin = [x for x in iv.get("inner", []) if x.get("kind") != "FullComment"]
+    i0 = t.strip(vin[0]) if vin else {}
+    c0 = t.strip(cond) if isinstance(cond, dict) else {}
+    n0 = t.strip(inc_["inner"][1]) if isinstance(inc_, dict) and inc_.get("kind") == "BinaryOperator" and inc_.get("opcode") == "=" else {}
+    ok = i0.get("kind") == "MemberExpr" and i0.get("name") == "streams" and t.strip(i0["inner"][0]).get("referencedDecl", {}).get("name") == "trace" \
+        and c0.get("kind") == "DeclRefExpr" and c0["referencedDecl"]["name"] == "s" \
+        and isinstance(inc_, dict) and t.strip(inc_["inner"][0]).get("referencedDecl", {}).get("name") == "s" \
+        and n0.get("kind") == "MemberExpr" and n0.get("name") == "next" and t.strip(n0["inner"][0]).get("referencedDecl", {}).get("name") == "s"
+    top = t.flat([body])
+    li = top.index(loops[0])
+    after = top[li + 1:]
+    ok = ok and len(after) == 1 and after[0].get("kind") == "ReturnStmt" and t.strip(after[0]["inner"][0]).get("kind") == "IntegerLiteral" \
+        and t.strip(after[0]["inner"][0]).get("value") == "0"
+    before = [x.get("kind") for x in top[:li]]
+    ok = ok and before == ["BinaryOperator", "IfStmt", "DeclStmt"]
+    if not ok:
+        raise cg.Unsupported("UNSUPPORTED %s function create_system: expected `sys->lpt = calloc(..); if (..) {..} size_t i = 0; "
+                             "for (struct stream *s = trace->streams; s; s = s->next) {..} return 0;`" % rel)
+    defs.append("(* %s: create_system: for (struct stream *s = trace->streams; s; s = s->next) { stream_body } return 0; *)\n"
+                "Definition create_system_loop (sys : ptr_sys) (trace : ptr_trace) : M Z :=\n"
+                "  bind_ (for_streams trace (fun s =>\n      stream_body sys s))\n  (ret (0)).\n" % rel)
     text = (G.HEADER % "src/emu/loom.c loom_find_proc, loom_add_proc, loom_load_metadata; src/emu/proc.c proc_find_thread, proc_add_thread, proc_load_metadata; src/emu/system.c create_thread, create_proc, create_loom, the loop body of create_system (unit metabuild)") + \
         "From Coq Require Import ZArith List Bool.\n" \
         "From OV Require Import Base.CInt Emu.MetaDefs Emu.MetaBuildPre.\n" \
-        "Import ListNotations.\nLocal Open Scope Z_scope.\n\n" + "\n".join(defs)
+        "Import ListNotations.\nLocal Open Scope Z_scope.\n\n(* enum constants, evaluated by the compiler *)\n" + ctext + "\n" + "\n".join(defs)
     return {"MetaBuild_gen.v": text}
